@@ -174,7 +174,7 @@ m("c15-hid-send-lock-kept-on-cancel", "C15", HID,
   "            return response\n        finally:\n            if not in_transaction:\n                self.transaction_lock.release()\n\n    async def power_supply",
   "        except BaseException as e:\n            if not in_transaction and not isinstance(e, asyncio.CancelledError):\n                self.transaction_lock.release()\n            raise\n        if not in_transaction:\n            self.transaction_lock.release()\n        return response\n\n    async def power_supply")
 m("c15-hid-close-before-release", "C15", HID, "            self.transaction_lock.release()\n            seq.close()", "            seq.close()\n            self.transaction_lock.release()")
-m("c16-hasseb-stale-response-not-cleared", "C16", HID, "            # that become available in the future.\n            self._response_available.clear()\n", "            # that become available in the future.\n")
+m("c17-hasseb-stale-response-not-cleared", "C17", HID, "            # that become available in the future.\n            self._response_available.clear()\n", "            # that become available in the future.\n")
 m("c20-tridonic-watch-only-when-subscribed", "C20", HID, "        elif data[0] == self._MODE_OBSERVE:\n            # Something happened that we didn't initiate with a command\n            self._bus_watch_data.append(data)\n            self._bus_watch_data_available.set()",
   "        elif data[0] == self._MODE_OBSERVE:\n            # Something happened that we didn't initiate with a command\n            if self.bus_traffic._callbacks:\n                self._bus_watch_data.append(data)\n                self._bus_watch_data_available.set()")
 
